@@ -3,6 +3,7 @@ import Proofs.C09.Bip341
 import Proofs.C09.Impl
 import Proofs.C09.Spec
 import Proofs.C09.Examples
+import Proofs.C09.Refusals
 /-!
 # C09 — signature hashes equal the legacy, BIP143 and BIP341 definitions
 
@@ -334,6 +335,249 @@ theorem legacy_single_out_of_range (S : Bytes → Bytes) (sc : Bytes) (tx : Tx) 
     Impl.legacy S sc tx i ht = .ok Gen.SigHash.SINGLE_BUG_DIGEST :=
   Impl.legacy_single_bug hht h0 h1 hs ho
 
+/-! ## T1b — the cache object: which precomputed hashes each hash type reads -/
+
+/-- T1b (BIP143): `segwit_v0` reads of a `PrecomputedTxData` -- ANY object, not only this transaction's -- exactly the
+    hashes its hash type commits to: `sha_prevouts` only without ANYONECANPAY, `sha_sequences` only for ALL-like
+    types without ANYONECANPAY, `sha_outputs` only when the type is neither NONE nor SINGLE.  Two caches that
+    agree on those give the same answer; in particular under ANYONECANPAY|NONE / |SINGLE nothing cached is used
+    (the all-inputs / all-outputs values are not picked up). -/
+theorem segwit_v0_reads_only_committed_cache_fields (S : Bytes → Bytes) (sc : Bytes) (tx : Tx) (i ht amount : Int)
+    (p p' : Impl.Precomputed)
+    (h1 : anyoneCanPay (Impl.word ht) = false → p.shaPrevouts = p'.shaPrevouts)
+    (h2 : anyoneCanPay (Impl.word ht) = false → baseType (Impl.word ht) ≠ Gen.SigHash.SINGLE →
+      baseType (Impl.word ht) ≠ Gen.SigHash.NONE → p.shaSequences = p'.shaSequences)
+    (h3 : baseType (Impl.word ht) ≠ Gen.SigHash.SINGLE → baseType (Impl.word ht) ≠ Gen.SigHash.NONE →
+      p.shaOutputs = p'.shaOutputs) :
+    Impl.segwitV0 S sc tx i ht amount (some p) = Impl.segwitV0 S sc tx i ht amount (some p') :=
+  Impl.segwitV0_cache_reads S sc tx i ht amount p p' h1 h2 h3
+
+/-- T1b (BIP341): the same for `taproot`: the four input-side hashes only without ANYONECANPAY, `sha_outputs`
+    only when the type is neither NONE nor SINGLE. -/
+theorem taproot_reads_only_committed_cache_fields (S : Bytes → Bytes) (tx : Tx) (i : Int) (prevouts : List TxOut)
+    (ht extFlag : Int) (annex msgExt : Bytes) (p p' : Impl.Precomputed)
+    (h1 : tapAcp ht.toNat = false → p.shaPrevouts = p'.shaPrevouts ∧ p.shaAmounts = p'.shaAmounts ∧
+      p.shaScriptPubKeys = p'.shaScriptPubKeys ∧ p.shaSequences = p'.shaSequences)
+    (h2 : tapNone ht.toNat = false → tapSingle ht.toNat = false → p.shaOutputs = p'.shaOutputs) :
+    Impl.taproot S tx i prevouts ht extFlag annex msgExt (some p) =
+      Impl.taproot S tx i prevouts ht extFlag annex msgExt (some p') :=
+  Impl.taproot_cache_reads S tx i prevouts ht extFlag annex msgExt p p' h1 h2
+
+/-- T1b: ANYONECANPAY|NONE and ANYONECANPAY|SINGLE read no cache at all: whatever object is handed over (even
+    another transaction's) the answer is the direct one. -/
+theorem taproot_acp_none_single_ignore_the_cache (S : Bytes → Bytes) (tx : Tx) (i : Int) (prevouts : List TxOut)
+    (ht extFlag : Int) (annex msgExt : Bytes) (p : Impl.Precomputed)
+    (ha : tapAcp ht.toNat = true) (hb : tapNone ht.toNat = true ∨ tapSingle ht.toNat = true) :
+    Impl.taproot S tx i prevouts ht extFlag annex msgExt (some p) =
+      Impl.taproot S tx i prevouts ht extFlag annex msgExt none :=
+  Impl.taproot_acp_none_single_ignores_cache S tx i prevouts ht extFlag annex msgExt p ha hb
+
+/-! ## T5 — the PSBT route -/
+
+/-- T5 (utxo lookup, `_prev_out`): the witness utxo when the map has one, else output `output_index or 0` of the
+    non-witness utxo when it has that many, else nothing; and when a map carries both and they agree (what
+    `Psbt.assert_valid` asks), either field alone gives the same spent output. -/
+theorem psbt_utxo_lookup (p : Impl.PsbtInput) :
+    (∀ o, p.witnessUtxo = some o → Impl.prevOutOf p = some o) ∧
+    (p.witnessUtxo = none → ∀ outs, p.nonWitnessUtxo = some outs →
+      Impl.prevOutOf p = outs[p.outputIndex.getD 0]?) ∧
+    (p.witnessUtxo = none → p.nonWitnessUtxo = none → Impl.prevOutOf p = none) ∧
+    (∀ o outs, p.witnessUtxo = some o → p.nonWitnessUtxo = some outs → outs[p.outputIndex.getD 0]? = some o →
+      Impl.prevOutOf { p with witnessUtxo := none } = Impl.prevOutOf p ∧
+      Impl.prevOutOf { p with nonWitnessUtxo := none } = Impl.prevOutOf p) := by
+  refine ⟨fun o h => by simp [Impl.prevOutOf, h], fun h outs ho => by simp [Impl.prevOutOf, h, ho],
+    fun h h' => by simp [Impl.prevOutOf, h, h'], fun o outs h ho hi => ?_⟩
+  simp [Impl.prevOutOf, h, ho, hi]
+
+/-- T5 (ECDSA): whenever `psbt.ecdsa_sig_hash` / `PsbtView.ecdsa_sig_hash` answers, the index names an input map,
+    that map's utxo lookup found an output `po`, the effective hash type (the argument, else the map's
+    PSBT_IN_SIGHASH_TYPE, else ALL) is one of the six ECDSA types, and the answer is the SPECIFICATION's digest:
+    BIP143 over the p2pkh script of the program (p2wpkh, bare or as redeem script), BIP143 over the witness script
+    (p2wsh, bare or wrapped), each with `po.value` as the amount, or the legacy digest over the spent script
+    (a non-witness utxo being present). -/
+theorem psbt_ecdsa_is_direct_and_spec (S : Bytes → Bytes) (inputs : List Impl.PsbtInput) (tx : Tx) (i : Int)
+    (ht : Option Int) (d : Bytes) (h : Impl.psbtEcdsaSigHash S inputs tx i ht = .ok d) :
+    0 ≤ i ∧ i < inputs.length ∧
+    ∃ po, Impl.prevOutOf (inputs.getD i.toNat Impl.PsbtInput.empty) = some po ∧
+      let p := (inputs.getD i.toNat Impl.PsbtInput.empty).view
+      let t := Impl.ecdsaType p ht
+      let script := Impl.spentScript p po
+      Impl.intMem t Gen.SigHash.SIG_HASH_TYPES = true ∧ t ≠ (Gen.SigHash.DEFAULT : Int) ∧
+      Impl.isP2tr script = false ∧
+      d = (if Impl.isP2wpkh script then
+            bip143Digest (Impl.hash256 S) (Impl.p2pkhScript (script.drop 2)) tx i.toNat (Impl.word t) po.value
+          else if Impl.isP2wsh script then
+            bip143Digest (Impl.hash256 S) p.witnessScript tx i.toNat (Impl.word t) po.value
+          else legacyDigest (Impl.hash256 S) script tx i.toNat (Impl.word t)) := by
+  unfold Impl.psbtEcdsaSigHash at h
+  obtain ⟨n, hn, h⟩ := Impl.bind_ok h
+  obtain ⟨h0, h1, rfl⟩ := Impl.assertInputIndex_ok hn
+  obtain ⟨po, hpo, hm, hd, htr, hr⟩ := Impl.ecdsaSigHash_ok h
+  refine ⟨h0, h1, po, hpo, hm, hd, htr, ?_⟩
+  split at hr
+  · next hc => rw [if_pos hc]; exact Impl.segwitV0_eq_spec hr
+  · next hc =>
+    rw [if_neg hc]
+    split at hr
+    · next hw =>
+      rw [if_pos hw]
+      split at hr
+      · cases hr
+      · exact Impl.segwitV0_eq_spec hr
+    · next hw =>
+      rw [if_neg hw]
+      split at hr
+      · cases hr
+      · split at hr
+        · cases hr
+        · exact Impl.legacy_eq_spec hr
+
+/-- T5 (taproot): whenever `psbt.taproot_sig_hash` answers, the index names an input map, every map's utxo lookup
+    found its output (`spent`), and the answer is the SPECIFICATION's BIP341 digest over the transaction and those
+    outputs: empty annex, key path without a leaf hash, else BIP342's extension (leaf hash, key version 0, no
+    codeseparator), under the argument's type, else the map's, else DEFAULT. -/
+theorem psbt_taproot_is_direct_and_spec (S : Bytes → Bytes) (inputs : List Impl.PsbtInput) (tx : Tx) (i : Int)
+    (leaf : Bytes) (hleaf : leaf = [] ∨ leaf.length = 32) (ht : Option Int) (d : Bytes)
+    (h : Impl.psbtTaprootSigHash S inputs tx i leaf ht = .ok d) :
+    0 ≤ i ∧ i < inputs.length ∧
+    ∃ spent, inputs.map Impl.prevOutOf = spent.map some ∧
+      let t := Impl.taprootType (inputs.getD i.toNat Impl.PsbtInput.empty).sigHashType ht
+      d = bip341Digest S tx i.toNat spent t.toNat none
+        (if leaf.isEmpty then none else some ⟨leaf, 0, 4294967295⟩) := by
+  unfold Impl.psbtTaprootSigHash at h
+  obtain ⟨n, hn, h⟩ := Impl.bind_ok h
+  obtain ⟨h0, h1, rfl⟩ := Impl.assertInputIndex_ok hn
+  obtain ⟨spent, hs, h⟩ := Impl.bind_ok h
+  refine ⟨h0, h1, spent, Impl.spentOutputs_ok hs, ?_⟩
+  unfold Impl.taprootSigHash at h
+  simp only at h ⊢
+  generalize Impl.taprootType (inputs.getD i.toNat Impl.PsbtInput.empty).sigHashType ht = t at h ⊢
+  rcases hleaf with rfl | hl
+  · simp only [List.isEmpty_nil, ↓reduceIte] at h ⊢
+    have e := Impl.taproot_eq_spec (S := S) (tx := tx) (i := i) (prevouts := spent) (ht := t) (annex := []) (d := d) none
+    simp only [Option.isSome_none, Bool.false_eq_true, ↓reduceIte, tapExtBytes, Impl.annexOpt, List.isEmpty_nil] at e
+    exact e h
+  · have hne : leaf.isEmpty = false := by
+      cases leaf with
+      | nil => simp at hl
+      | cons x xs => rfl
+    have he : leaf ++ Gen.SigHash.EXT_SUFFIX = tapExtBytes (some ⟨leaf, 0, 4294967295⟩) := by
+      simp only [tapExtBytes, TapExt.ser, Gen.SigHash.EXT_SUFFIX]
+      congr 1
+    have hx : (leaf ++ Gen.SigHash.EXT_SUFFIX).isEmpty = false := by
+      cases leaf with
+      | nil => simp at hl
+      | cons x xs => rfl
+    simp only [hne, hx, Bool.false_eq_true, ↓reduceIte] at h ⊢
+    have e := Impl.taproot_eq_spec (S := S) (tx := tx) (i := i) (prevouts := spent) (ht := t) (annex := []) (d := d)
+      (some ⟨leaf, 0, 4294967295⟩)
+    simp only [Option.isSome_some, ↓reduceIte, Impl.annexOpt, List.isEmpty_nil, ← he] at e
+    exact e h
+
+/-- T5 (streamed view): `PsbtView.taproot_sig_hash` -- spent outputs read once, `PrecomputedTxData` built once and
+    handed over -- answers what `psbt.taproot_sig_hash` answers whenever that object can be built (always for a
+    transaction and amounts whose fields have their widths); and whatever the view answers the whole psbt answers. -/
+theorem psbt_view_taproot_eq_whole (S : Bytes → Bytes) (inputs : List Impl.PsbtInput) (tx : Tx) (i : Int)
+    (leaf : Bytes) (ht : Option Int) :
+    (∀ d, Impl.viewTaprootSigHash S inputs tx i leaf ht = .ok d →
+      Impl.psbtTaprootSigHash S inputs tx i leaf ht = .ok d) ∧
+    ((∀ spent, Impl.spentOutputs inputs = .ok spent → ∃ p, Impl.precompute S tx spent = .ok p) →
+      Impl.viewTaprootSigHash S inputs tx i leaf ht = Impl.psbtTaprootSigHash S inputs tx i leaf ht) := by
+  constructor
+  · intro d h
+    unfold Impl.viewTaprootSigHash at h
+    unfold Impl.psbtTaprootSigHash
+    obtain ⟨n, hn, h⟩ := Impl.bind_ok h
+    obtain ⟨spent, hs, h⟩ := Impl.bind_ok h
+    obtain ⟨p, hp, h⟩ := Impl.bind_ok h
+    simp only [hn, hs, bind, Except.bind]
+    unfold Impl.taprootSigHash at h ⊢
+    rw [← Impl.taproot_precomputed hp]
+    exact h
+  · intro hall
+    unfold Impl.viewTaprootSigHash Impl.psbtTaprootSigHash
+    cases hn : Impl.assertInputIndex inputs.length i with
+    | error e => rfl
+    | ok n =>
+      cases hs : Impl.spentOutputs inputs with
+      | error e => rfl
+      | ok spent =>
+        obtain ⟨p, hp⟩ := hall spent hs
+        simp only [bind, Except.bind, hp]
+        unfold Impl.taprootSigHash
+        exact Impl.taproot_precomputed hp _ _ _ _ _
+
+/-! ## T3b — the refusal table, refusing direction (a declared error ⇒ BTClibValueError) -/
+
+/-- T3b (BIP341): `taproot` REFUSES, with the library's value error, an input index outside the transaction, a
+    number of spent outputs that is not the number of inputs, a hash type outside the seven and SIGHASH_SINGLE
+    without a matching output -- direct or with any precomputed object, whatever the other arguments are
+    (with `taproot_refuses_declared_errors`: it answers only when none of these holds). -/
+theorem refusal_table_bip341 (S : Bytes → Bytes) (tx : Tx) (i : Int) (prevouts : List TxOut) (ht extFlag : Int)
+    (annex msgExt : Bytes) (pre : Option Impl.Precomputed)
+    (h : i < 0 ∨ (tx.vin.length : Int) ≤ i ∨ prevouts.length ≠ tx.vin.length ∨
+      Impl.intMem ht Gen.SigHash.SIG_HASH_TYPES = false ∨ (tapSingle ht.toNat = true ∧ i.toNat ≥ tx.vout.length)) :
+    Impl.taproot S tx i prevouts ht extFlag annex msgExt pre = .error .value :=
+  Impl.taproot_refuses h
+
+/-- T3b (legacy, BIP143): a hash type wider than its four bytes or an index outside the transaction (`legacy`); an
+    amount outside the CAmount field or an index outside the transaction (`segwit_v0`) are refused with the
+    library's value error.  (SIGHASH_SINGLE without a matching output is NOT an error in either: the constant
+    `legacy_single_out_of_range`, BIP143's zero hashOutputs.) -/
+theorem refusal_table_legacy_bip143 (S : Bytes → Bytes) (sc : Bytes) (tx : Tx) (i ht amount : Int)
+    (pre : Option Impl.Precomputed) :
+    (ht < -2147483648 ∨ 4294967296 ≤ ht ∨ i < 0 ∨ (tx.vin.length : Int) ≤ i →
+      Impl.legacy S sc tx i ht = .error .value) ∧
+    (amount < -9223372036854775808 ∨ 9223372036854775808 ≤ amount ∨ i < 0 ∨ (tx.vin.length : Int) ≤ i →
+      Impl.segwitV0 S sc tx i ht amount pre = .error .value) :=
+  ⟨Impl.legacy_refuses, Impl.segwitV0_refuses⟩
+
+/-- T3b (`from_tx`): an index naming no input or a prevouts list that is not one per input is refused before any
+    dispatch. -/
+theorem from_tx_refuses_bad_index_or_prevouts (S H160 : Bytes → Bytes) (prevouts : List TxOut) (tx : Tx)
+    (wits : List (List Bytes)) (i ht : Int) (pre : Option Impl.Precomputed) (codesep : Int)
+    (h : i < 0 ∨ (tx.vin.length : Int) ≤ i ∨ prevouts.length ≠ tx.vin.length) :
+    Impl.fromTx S H160 prevouts tx wits i ht pre codesep = .error .value :=
+  Impl.fromTx_refuses h
+
+/-- T3b (annex): whatever `taproot_annex_and_ext` hands on as the annex is empty or is the LAST element of a stack
+    of at least two and begins with 0x50 -- an element without the tag is never taken for an annex -- and an empty
+    stack is refused.  (`sig_hash.taproot` itself takes the annex as given: see the manifest.) -/
+theorem annex_is_tagged_last_element (S : Bytes → Bytes) (stack : List Bytes) (a e : Bytes)
+    (h : Impl.annexAndExt S stack = .ok (a, e)) :
+    stack ≠ [] ∧ (a = [] ∨ (a.head? = some 0x50 ∧ stack.getLast? = some a ∧ stack.length ≥ 2)) :=
+  Impl.annexAndExt_annex_tagged h
+
+/-- T3b (PSBT): an input index outside the input maps is refused by all three entry points (the repair of
+    `psbt.sig_hash.vin_i_out_of_range`: a negative index no longer counts from the end), and a taproot digest is
+    refused when any input map carries no utxo. -/
+theorem psbt_refuses_bad_index_and_missing_utxo (S : Bytes → Bytes) (inputs : List Impl.PsbtInput) (tx : Tx) (i : Int)
+    (leaf : Bytes) (ht : Option Int) :
+    (i < 0 ∨ (inputs.length : Int) ≤ i →
+      Impl.psbtEcdsaSigHash S inputs tx i ht = .error .value ∧
+      Impl.psbtTaprootSigHash S inputs tx i leaf ht = .error .value ∧
+      Impl.viewTaprootSigHash S inputs tx i leaf ht = .error .value) ∧
+    ((∃ p ∈ inputs, Impl.prevOutOf p = none) →
+      Impl.psbtTaprootSigHash S inputs tx i leaf ht = .error .value ∧
+      Impl.viewTaprootSigHash S inputs tx i leaf ht = .error .value) := by
+  constructor
+  · intro h
+    unfold Impl.psbtEcdsaSigHash Impl.psbtTaprootSigHash Impl.viewTaprootSigHash
+    rw [Impl.assertInputIndex_bad h]
+    exact ⟨rfl, rfl, rfl⟩
+  · intro h
+    unfold Impl.psbtTaprootSigHash Impl.viewTaprootSigHash
+    rw [Impl.spentOutputs_missing h]
+    by_cases hi : i < 0 ∨ (inputs.length : Int) ≤ i
+    · rw [Impl.assertInputIndex_bad hi]
+      exact ⟨rfl, rfl⟩
+    · have hv : Impl.assertInputIndex inputs.length i = .ok i.toNat := by
+        unfold Impl.assertInputIndex
+        rw [if_pos (by omega)]
+        rfl
+      rw [hv]
+      exact ⟨rfl, rfl⟩
+
 /-! ## T4 — OP_CODESEPARATOR removal -/
 
 /-- T4: reading the stripped script operation by operation (Core's `GetOp`) gives exactly the operations of
@@ -419,5 +663,38 @@ example : (0x83 : Nat) = 0x83 ∧ some exExt = some exExt :=
     (by decide) (by decide) (fun e he => by cases he; exact exExt_wf) (fun e he => by cases he; exact exExt_wf) rfl
   ⟨r.1, r.2.2.2.1⟩
 example : legacySingleBug exTx 0 3 = false ∧ legacySingleBug { exTx with vout := [] } 0 3 = true := by decide
+
+-- the cache theorems are not vacuous: a cache of ANOTHER transaction changes an ALL digest, not an ANYONECANPAY|NONE one
+example : Impl.taproot id exTx 0 [⟨1000, [0x51]⟩] 0x82 0 [] [] (some ⟨[1], [2], [3], [4], [5]⟩) =
+      Impl.taproot id exTx 0 [⟨1000, [0x51]⟩] 0x82 0 [] [] none ∧
+    Impl.taproot id exTx 0 [⟨1000, [0x51]⟩] 1 0 [] [] (some ⟨[1], [2], [3], [4], [5]⟩) ≠
+      Impl.taproot id exTx 0 [⟨1000, [0x51]⟩] 1 0 [] [] none := by decide
+-- the PSBT route answers: a p2wpkh input described by a witness utxo, a legacy one by a non-witness utxo (output 1 of
+-- the previous transaction), a taproot one; and refuses an index outside the maps (-1 no longer counts from the end)
+def exWpkh : Impl.PsbtInput := ⟨some ⟨1000, 0 :: 0x14 :: List.replicate 20 7⟩, none, none, [], [], none⟩
+def exLegacy : Impl.PsbtInput := ⟨none, some [⟨1, [0x51]⟩, ⟨1000, [0x76, 0xAC]⟩], some 1, [], [], some 0x83⟩
+def exTr : Impl.PsbtInput := ⟨some ⟨1000, 0x51 :: 0x20 :: List.replicate 32 7⟩, none, none, [], [], none⟩
+example : (Impl.psbtEcdsaSigHash id [exWpkh] exTx 0 none).toOption.isSome = true ∧
+    (Impl.psbtEcdsaSigHash id [exLegacy] exTx 0 none).toOption.isSome = true ∧
+    Impl.prevOutOf exLegacy = some ⟨1000, [0x76, 0xAC]⟩ ∧
+    (Impl.psbtTaprootSigHash id [exTr] exTx 0 (List.replicate 32 9) none).toOption.isSome = true ∧
+    Impl.viewTaprootSigHash id [exTr] exTx 0 (List.replicate 32 9) none =
+      Impl.psbtTaprootSigHash id [exTr] exTx 0 (List.replicate 32 9) none ∧
+    Impl.psbtEcdsaSigHash id [exWpkh] exTx (-1) none = .error .value ∧
+    Impl.psbtTaprootSigHash id [exTr] exTx 1 [] none = .error .value ∧
+    Impl.psbtTaprootSigHash id [exTr, Impl.PsbtInput.empty] exTx 0 [] none = .error .value := by decide +kernel
+-- the refusal table fires: each declared error on an otherwise answering call
+example : (Impl.taproot id exTx 0 [⟨1000, [0x51]⟩] 3 0 [] [] none).toOption.isSome = true ∧
+    Impl.taproot id exTx 1 [⟨1000, [0x51]⟩] 3 0 [] [] none = .error .value ∧
+    Impl.taproot id exTx 0 [] 3 0 [] [] none = .error .value ∧
+    Impl.taproot id exTx 0 [⟨1000, [0x51]⟩] 0x80 0 [] [] none = .error .value ∧
+    Impl.taproot id { exTx with vout := [] } 0 [⟨1000, [0x51]⟩] 3 0 [] [] none = .error .value ∧
+    Impl.legacy id [0x51] exTx 0 4294967296 = .error .value ∧
+    Impl.segwitV0 id [0x51] exTx 0 1 9223372036854775808 none = .error .value := by decide
+-- an annex is the tagged last element of at least two; the same bytes alone on the stack are the signature
+example : (Impl.annexAndExt id [[1, 2], [0x50, 9]]).toOption.map (·.1) = some [0x50, 9] ∧
+    (Impl.annexAndExt id [[0x50, 9]]).toOption.map (·.1) = some [] ∧
+    (Impl.annexAndExt id [[1, 2], [0x51, 9]]).toOption.map (·.1) = some [] ∧
+    (Impl.annexAndExt id []).toOption = none := by decide
 
 end Props.C09
